@@ -14,7 +14,10 @@ own `catch_unwind`.
       (documented: `bit_ct` panics for index ≥ BITS while `bit` returns false), or
   (d) op = `ni.next_multiple_of` (trait-provided default of num-integer, wraps on overflow) and
       `I = panic` (the inherent method panics on overflow) — and in that case F must still be the
-      value of the default's model (`Facade.nextMultipleOf`).
+      value of the default's model (`Facade.nextMultipleOf`), or
+  (e) op = `nt.PrimInt.pow` with a `u32` exponent that is not representable at the width (the inherent
+      `pow` takes a `Uint` exponent; the harness prints `unrepresentable-exponent` for I): F must be
+      `a^e mod 2^bits` (`Facade.powU32`).
   Nothing else is excused.
 * **model column** — for the facades with logic of their own (`Ruint.Facade.*`, the functions the
   theorems of `Props/C20.lean` are about) and for the operator / shift / arithmetic families, the
@@ -47,6 +50,10 @@ def parity (op : String) (bits : Nat) (rest : List String) (f i : String) : Bool
   || (op == "ct.bit" && f == "panic" && i == "f" &&
         (match rest with
          | [_, n] => decide (bits ≤ parseHex n)
+         | _ => false))
+  || (op == "nt.PrimInt.pow" && i == "unrepresentable-exponent" &&
+        (match rest with
+         | [a, n] => f == toHex (powU32 bits (parseHex a) (parseHex n % 2 ^ 32))
          | _ => false))
   || (op == "ni.next_multiple_of" && i == "panic" &&
         (match rest with
@@ -262,7 +269,9 @@ def e2 (op : String) (parts : List String) (bits : Nat) (a b : String) : String 
     | "nt.PrimInt.signed_shr" => v2 (ashr bits x (y % 2 ^ 32))
     | "nt.PrimInt.rotate_left" => v2 (rotl bits x (y % 2 ^ 32))
     | "nt.PrimInt.rotate_right" => v2 (rotr bits x (y % 2 ^ 32))
-    | "nt.PrimInt.pow" => ov (powU32 bits x (y % 2 ^ 32))
+    | "nt.PrimInt.pow" =>
+      let e := y % 2 ^ 32
+      toHex (powU32 bits x e) ++ "|" ++ (if e < m then toHex (wpow bits x e) else "unrepresentable-exponent")
     | _ => "skip"
 
 /-- ops with three operand tokens -/
